@@ -58,6 +58,15 @@ theorem C14_shard_upload_bytes_exact (evs : List EvB) :
       (runB false SB.init evs).reportedShard = some (runB false SB.init evs).shardHanded :=
   (binv_reachable evs).shard
 
+/-- **Reported total = everything handed to the store**: xorb bytes of all puts plus the bytes of all (accepted) shards. -/
+theorem C14_total_upload_bytes_exact (evs : List EvB) :
+    (runB false SB.init evs).s.finalized = some true →
+      (runB false SB.init evs).reportedTotal =
+        some ((runB false SB.init evs).shardHanded + (runB false SB.init evs).handed) := by
+  intro h
+  unfold SB.reportedTotal
+  rw [(C14_xorb_upload_bytes_exact evs h).1, C14_shard_upload_bytes_exact evs h]
+
 /-- Nothing is reported by a session that did not finalize successfully. -/
 theorem C14_upload_bytes_only_on_success (evs : List EvB) :
     (runB false SB.init evs).s.finalized ≠ some true →
